@@ -104,7 +104,7 @@ class GSim(mosaik_api_v3.Simulator):
     """Scripted simulator whose step()/get_data() block on gates."""
     def __init__(self):
         super().__init__({'api_version': '3.0', 'type': 'time-based',
-                          'models': {'M': {'public': True, 'params': [], 'attrs': ['i', 'ti', 'po', 'eo']}}})
+                          'models': {'M': {'public': True, 'params': [], 'attrs': ['i', 'ti', 't2', 'po', 'eo', 'e2']}}})
 
     def init(self, sid, time_resolution=1.0, beh=None):
         self.sid = sid; self.beh = beh or {}
@@ -113,9 +113,9 @@ class GSim(mosaik_api_v3.Simulator):
         self.meta['type'] = t
         m = self.meta['models']['M']
         if t == 'hybrid':
-            m['trigger'] = ['ti']; m['non-persistent'] = ['eo']; m['attrs'] = ['i', 'ti', 'po', 'eo']
+            m['trigger'] = ['ti', 't2']; m['non-persistent'] = ['eo', 'e2']; m['attrs'] = ['i', 'ti', 't2', 'po', 'eo', 'e2']
         elif t == 'event-based':
-            m['attrs'] = ['ti', 'eo']
+            m['attrs'] = ['ti', 't2', 'eo', 'e2']
         else:
             m['attrs'] = ['i', 'po']
         self.count = {}
@@ -132,9 +132,24 @@ class GSim(mosaik_api_v3.Simulator):
         ctrl.log.append(('BEGIN', self.sid, tuple(cs.tiers), max_advance, copy.deepcopy(inputs)))
         yield ctrl.gate((self.sid, 'step'))
         b = self.beh
-        for (dest, attr, tok) in b.get('set_data', {}).get(_key(time, k), []):
-            ctrl.log.append(('SETDATA', self.sid, dest, attr, tok))
-            yield self.mosaik.set_data({f'{self.sid}.e': {f'{dest}.e': {attr: tok}}})
+        items = b.get('set_data', {}).get(_key(time, k), [])
+        if b.get('set_data_batched'):
+            # one set_data call carrying everything the agent entities of this simulator write in this step
+            call = {}
+            for it in items:
+                dest, attr, tok = it[:3]; w = it[3] if len(it) > 3 else 0
+                call.setdefault(f'{self.sid}.' + ('e' if w == 0 else f'a{w}'), {}).setdefault(f'{dest}.e', {})[attr] = tok
+            for src, dests in call.items():          # the order in which MosaikRemote.set_data processes the call
+                for dfull, attrs in dests.items():
+                    for attr, tok in attrs.items():
+                        ctrl.log.append(('SETDATA', self.sid, dfull.split('.')[0], attr, tok, 0 if src.endswith('.e') else int(src.split('.a')[1])))
+            if call:
+                yield self.mosaik.set_data(call)
+        else:
+            for it in items:
+                dest, attr, tok = it[:3]; w = it[3] if len(it) > 3 else 0
+                ctrl.log.append(('SETDATA', self.sid, dest, attr, tok, w))
+                yield self.mosaik.set_data({f'{self.sid}.' + ('e' if w == 0 else f'a{w}'): {f'{dest}.e': {attr: tok}}})
         bad = b.get('bad', {}).get(_key(time, k))
         if bad and bad[0] == 'step':
             r = bad[1]
